@@ -222,8 +222,10 @@ def run(ck):
               "rejection path fulfils a chained request at %s" % badw[0].loc if badw else "%d chained call(s), all reject" % len(w))
     # (b) the rethrow handler
     for f in prog.find(P + "Continuable::reject", 2):
-        handlers = [b for b in f.blocks.values() if b.label and b.label.get("k") == "catch" and "InternalRethrow" in (b.label.get("type") or "")]
-        ck.require(handlers, "InternalRethrow handler not found in Continuable::reject")
+        # every handler around doReject that completes normally (one that only rethrows is not a forwarding path)
+        handlers = [b for b in f.blocks.values() if b.label and b.label.get("k") == "catch" and
+                    [x for x in cfg.exits_without(f, lambda e: False, start_block=b.id) if x.kind != "throw"]]
+        ck.require(handlers, "no exception handler around doReject in Continuable::reject")
         for hb in handlers:
             evs = cfg.events_from_block(f, hb.id)
             w = walk_calls(evs)
